@@ -4,7 +4,7 @@ CONSTANTS
   MAX = 3
   MaxWrites = @@MAXW@@
   MaxInj = 2
-  InjKinds = {"fd", "fe", "unk"}
+  InjKinds = {"fd", "fdn", "fe", "fen", "unk"}
   RSizes = {"one", "small", "big"}
   Gen = FALSE
   Emit = FALSE
